@@ -100,6 +100,16 @@ def _dot(ctx, p, rng):
     sa = tuple(int(v) for v in rng.integers(1, 4, size=ra - 1)) + (k,)
     sb = (k,) if rb == 1 else tuple(int(v) for v in rng.integers(1, 4, size=rb - 2)) + (k, int(rng.integers(1, 4)))
     a = rng.normal(size=(D, P) + sa); b = rng.normal(size=(D, P) + sb)
+    if D > 2:
+        # coefficient patterns: an identically zero interior coefficient with non-zero ones above it, sparse tails
+        pat = int(rng.integers(5))
+        for arr in (a, b):
+            if pat == 1:
+                arr[1] = 0
+            elif pat == 2:
+                arr[1:-1] = 0
+            elif pat == 3:
+                arr[int(rng.integers(1, D - 1))] = 0
     ucplx = rng.random() < 0.25          # complex polynomial operand(s)
     which = int(rng.integers(3))           # complex: left only / right only / both (mixed real-complex polynomial operands)
     if ucplx:
@@ -216,7 +226,7 @@ def _solve(ctx, p, rng):
     if cond > 1e3:
         ctx.skip('out_of_domain:cond'); return
     lay = gen.LAYOUTS[int(rng.integers(5))]
-    A = UTPM(gen.relayout(a, lay)) if kinds[0] == 'U' else a[0, 0].copy()
+    A = UTPM(gen.relayout(a, lay)) if kinds[0] == 'U' else np.array(a[0, 0], order='F' if rng.random() < 0.5 else 'C')
     B = UTPM(gen.relayout(b, gen.LAYOUTS[int(rng.integers(5))])) if kinds[1] == 'U' else np.array(b[0, 0], order='F' if lay == 'F' else 'C')
     mech = 'solve:%s:%s:%s' % (kinds, 'pivot' if pivot else 'nopivot', 'multi' if k > 1 else 'single')
     ok, r = _call(ctx, mech, [algopy.solve, UTPM.solve][int(rng.integers(2))], A, B)
@@ -259,6 +269,8 @@ def _det(ctx, p, rng, log=False):
         for pp in range(P):
             if np.linalg.det(a[0, pp]) < 0:
                 a[:, pp, 0, :] *= -1          # the statement's logdet needs det > 0
+        # determinants that over/underflow a double although log(det) is harmless
+        a = a * (10.0 ** float([0, 0, -90, 90, -40][int(rng.integers(5))]))
     cond = max(lin.cond2(a[0, pp]) for pp in range(P))
     if cond > 1e3:
         ctx.skip('out_of_domain:cond'); return
@@ -279,12 +291,16 @@ def _det(ctx, p, rng, log=False):
                 e = float(abs(Q.Fraction(float(got[d])) - det[d].re) / (maj[d].re + Q.Fraction(1, 10 ** 300)))
                 worst_p = max(worst_p, e)
         else:
-            ds = [mp.mpf(v.re.numerator) / mp.mpf(v.re.denominator) for v in det]
-            ms = [mp.mpf(v.re.numerator) / mp.mpf(v.re.denominator) for v in maj]
-            lk = O.taylor_coeffs(mp.log, ds[0], D - 1)
+            # normalise by det_0 (exactly, in rationals) so that the log series is taken at 1 whatever the scale of det
+            d0 = det[0].re
+            ds = [mp.mpf((v.re / d0).numerator) / mp.mpf((v.re / d0).denominator) for v in det]
+            ms = [mp.mpf((v.re / abs(d0)).numerator) / mp.mpf((v.re / abs(d0)).denominator) for v in maj]
+            lk = O.taylor_coeffs(mp.log, mp.mpf(1), D - 1)
             ref = O.compose(lk, ds)
-            mj = O.compose([abs(v) for v in lk], [ds[0]] + ms[1:])
-            mj[0] = abs(ref[0]) + ms[0] / abs(ds[0])
+            mj = O.compose([abs(v) for v in lk], [mp.mpf(1)] + ms[1:])
+            log_d0 = mp.log(mp.mpf(d0.numerator)) - mp.log(mp.mpf(d0.denominator))
+            ref[0] = ref[0] + log_d0
+            mj[0] = abs(log_d0) + ms[0]
             worst_p = O.err_over_maj(list(got), ref, mj)
         worst = max(worst, worst_p)
         if not worst_p <= TAU_RES * cond:
